@@ -27,6 +27,7 @@ verbatim Verus text that goes into the verus! block):
              external_body  emit with #[verifier::external_body] (body kept, not verified)
              nobody         emit as external_body with `unimplemented!()` body (callee outside Verus' reach)
              keepvis        do not force `pub`
+             noconst        R10: emit a `const fn` as plain `fn`
      ret <name>              name the return value
      <contract lines>        requires/ensures/decreases/... copied between signature and body
      @entry                  following lines are inserted at the start of the body
@@ -309,6 +310,16 @@ class Generator:
                 elif d == "@open":
                     self.do_open(arg, rel, i + 1)
                     i += 1
+                elif d == "@leapdata":
+                    import leapdata
+                    try:
+                        txt = leapdata.generate_vrs()
+                    except leapdata.LeapDataError as e:
+                        raise GenError(f"leap-second data files: {e}")
+                    except OSError as e:
+                        raise GenError(f"anchor lost: leap-second data file: {e}")
+                    self.em.emit(txt, {"kind": "gen", "item": "leapdata (data/leap-seconds.list, naif0012.txt)"})
+                    i += 1
                 elif d == "@derive_ord":
                     self.do_derive_ord(arg, rel, i + 1)
                     i += 1
@@ -483,7 +494,7 @@ class Generator:
         want_pub = (not in_trait_impl and not in_trait) or emit_inherent
         if want_pub and not opts.get("keepvis"):
             piece.insert(f["fn_tok"][0] if not f["constness"] else f["constness"][0], "pub ", "R3-vis", order=-1)
-        if f["constness"] and not opts.get("keepconst"):
+        if f["constness"] and opts.get("noconst"):
             # R10: `const fn` -> `fn` (Verus: const fn with contracts / loops is not supported uniformly)
             piece.delete((f["constness"][0], f["fn_tok"][0]), "R10-const")
         if opts.get("as"):
@@ -580,6 +591,8 @@ class Generator:
             close = "}"
         elif cont is not None and cont["kind"] == "trait":
             raise GenError(f"{rel}:{lno}: trait methods need an enclosing @open")
+        if opts.get("rlimit"):
+            pre += f"#[verifier::rlimit({int(opts['rlimit'])})]\n"
         if pre:
             self.em.emit(pre.rstrip("\n"), {"kind": "gen"})
         g1, g2 = self.emit_piece(piece, label)
